@@ -377,6 +377,14 @@ fn check(c: &MapCase, op: Op, obs: &mut Obs) -> CheckResult {
                     }
                     obs.class("infinite_or_huge_elements");
                 }
+                if matches!(op, Op::VDiff | Op::VPct) && c.mask & 0xC0 == 0x80 {
+                    // tiny magnitudes (a non-zero base is a base, however small)
+                    let sc = [1e-15, 1e-300, 2.5e-20][(c.mask as usize) % 3];
+                    for v in c2.x.iter_mut() {
+                        *v = v.map(|x| x * sc);
+                    }
+                    obs.class("tiny_magnitudes");
+                }
                 run_numeric::<f64>(&c2, op, obs)
             },
         },
